@@ -14,7 +14,7 @@ func init() {
 	register(&propertyDef{
 		id:    "C17",
 		title: "no data races (guarded-by discipline)",
-		rules: []ruleFunc{c17R1, c17R2, c17R3, c17R4, c17R5},
+		rules: []ruleFunc{c17R1, c17R2, c17R3, c17R4, c17R5, c17R6},
 		decided: "a guarded-by discipline that is sufficient for race freedom of the engine's shared structures: every field of loopState and of the two runningStep types that is written after construction " +
 			"is written under one common mutex, and every read without that mutex is made by the only goroutine that writes the field or by a goroutine it starts after the write (R1); variables captured by goroutine closures " +
 			"are accessed under a lock or separated from the parent's accesses by the go statement / a Wait (R2); package-level state is immutable after init or of a goroutine-safe type (R3).",
